@@ -14,8 +14,8 @@ RULE = (
     "happened after at least one member or record was processed; state = (abort member, abort record, method, what was archived)"
 )
 BOUNDS = {
-    "quick": "groups of 1..3 (abort member at every index) x 2 error kinds x 2 raise configurations x files of 2..4 records (every abort position) x 6 methods x 2 follow-up methods",
-    "thorough": "groups of 1..4, files of 2..8 records, every (member, record) abort point, 6 methods, 2 kinds x 2 configurations",
+    "quick": "groups of 1..3 (abort member at every index) x 2 error kinds x 2 raise configurations (validation-mode comment, config policy raise+collect) x files of 2..4 records (every abort position) x 6 methods x 2 follow-up methods; plus the policies quiet+raise+collect and raise+collect+stop+fail+print for one kind",
+    "thorough": "groups of 1..4, files of 2..8 records, every (member, record) abort point, 6 methods, 2 kinds x 2 configurations (+ 2 wider policies for one kind)",
 }
 CHUNK = 30
 BUDGET = {"quick": 600, "thorough": 3400}
@@ -48,11 +48,13 @@ def cases(tier, seed):
     for gsize in range(1, gmax + 1):
         for abidx in range(gsize):
             for kind in KINDS:
-                for via in ("comment", "config"):
+                for via in ("comment", "config", "config-quiet", "config-all"):
                     for n in sizes:
                         for pos in range(n):
                             for m in groups.METHODS:
                                 for follow in ("same", "cross"):
+                                    if via.startswith("config-") and (kind != "argtype" or follow != "same"):
+                                        continue  # the two wider policies: one error kind, one follow-up
                                     yield {"gsize": gsize, "abidx": abidx, "kind": kind, "via": via, "n": n, "pos": pos, "method": m, "follow": follow}
 
 
@@ -79,7 +81,7 @@ def run_case(case):
             j += 1
     good, badrow = KINDS[kind][1], KINDS[kind][2]
     rows = [list(badrow if i == pos else good) + [str(i)] for i in range(n)]
-    policy = "collect" if via == "comment" else "raise, collect"
+    policy = {"comment": "collect", "config": "raise, collect", "config-quiet": "quiet, raise, collect", "config-all": "raise, collect, stop, fail, print"}[via]
     cp = groups.fresh(policy=policy)
     src = sandbox.write_csv(rows)
     groups.register(cp, src, members)
